@@ -121,11 +121,20 @@ class SimHTTPTransport(httpx.AsyncBaseTransport):
         self.pre_delay = None
 
     async def handle_async_request(self, request: httpx.Request) -> httpx.Response:
+        box = {}
+        try:
+            return await self._handle(request, box)
+        finally:
+            if "rec" in box:
+                box["rec"]["returned"] = True   # headers delivered, an exception raised, or the awaiting task cancelled
+
+    async def _handle(self, request: httpx.Request, box: dict) -> httpx.Response:
         sim = self.sim
         body = await request.aread() if hasattr(request, "aread") else request.content
         rec = {"i": len(self.requests), "method": request.method, "url": str(request.url), "headers": {k.lower(): v for k, v in request.headers.items()},
                "body": bytes(body), "t": sim.now(), "eseq": sim.rec("http", f"request:{request.method}", None)}
         self.requests.append(rec)
+        box["rec"] = rec
         to = request.extensions.get("timeout", {}) or {}
         if self.pre_delay is not None:
             # transit time of the request: the server only sees (and orders) it after this delay
